@@ -2,6 +2,7 @@
 import io
 import itertools
 import json
+import os
 import random
 
 from harness import core
@@ -50,6 +51,21 @@ def make_app():
     @app.route('/body', method='POST')
     def b():
         return app.request.body.read()
+    hooked = Ombott()
+
+    @hooked.on('before_request')
+    def _site_defaults():
+        hooked.response.headers['X-Frame-Options'] = 'DENY'
+        hooked.response.content_type = 'text/html; charset=utf-8'
+
+    @hooked.route('/only-post', method='POST')
+    def hp():
+        return 'ok'
+
+    @hooked.route('/crash')
+    def hc():
+        raise ValueError('boom ' + hooked.request.query_string)
+    app.hooked = hooked
     crit = Ombott()
 
     @crit.error(404)
@@ -67,6 +83,8 @@ def request(apps, kind, ch, payload, want_json):
     the_app = app
     if kind == 'critical':
         the_app = crit
+    if getattr(request, 'use_hooked', False) and kind in ('404', '405', '500') and ch != 'path':
+        the_app = app.hooked
     if ch == 'path':
         if kind == '400p':
             marked = 'zq' + payload + '\xff' + 'qz'      # an undecodable byte inside the reflected text
@@ -92,6 +110,56 @@ def request(apps, kind, ch, payload, want_json):
     text = body.decode('utf8', 'replace')
     return {'kind': 'critical' if kind == 'critical' else kind.rstrip('pg'), 'ch': ch, 'payload': s2l(marked), 'json': bool(want_json) and kind != 'critical',
             'status': status, 'ctype': s2l(ctype), 'body': s2l(text), 'kind_full': kind, 'payload_text': payload}
+
+
+def template_fault_records(chk):
+    """Crash point: the error page template cannot be read when the first error page of a process is due (zipped / frozen
+    deployment, file permissions).  Whatever page is produced then must obey the same escaping rules.  Served in an interpreter
+    of its own, because the template is loaded once per process."""
+    import subprocess
+    import sys
+    code = r'''
+import sys, json, io, builtins
+sys.path.insert(0, %r)
+from harness import core
+core.setup_repo_path()
+_open = builtins.open
+def failing_open(file, *a, **kw):
+    if str(file).endswith('error.html'):
+        raise PermissionError(13, 'Permission denied', str(file))
+    return _open(file, *a, **kw)
+builtins.open = failing_open
+import io as _io
+_io_open = _io.open
+_io.open = failing_open
+from harness.checks import c20
+from harness.checks.bodylib import base_environ, call_app
+apps = c20.make_app()
+out = []
+for kind in ('404', '405', '500'):
+    for ch in ('query', 'host', 'path'):
+        for pl in ('<img src=x onerror=alert(1)>', '"\'', '<b>', 'plain'):
+            try:
+                r = c20.request(apps, kind, ch, pl, False)
+            except Exception as e:
+                r = None
+            if r is not None:
+                out.append(r)
+print('RECS' + json.dumps(out))
+''' % core.VERIF
+    env = dict(os.environ, VERIF_REPO=core.REPO, PYTHONHASHSEED='0')
+    p = subprocess.run([sys.executable, '-c', code], capture_output=True, text=True, env=env, timeout=300)
+    for line in p.stdout.splitlines():
+        if line.startswith('RECS'):
+            recs = json.loads(line[4:])
+            for r in recs:
+                # whatever was asked for, the page that comes out under this fault is judged as a last-resort page
+                r['kind_full'] = 'template-unreadable:' + r['kind_full']
+                if r['status'] == 500 and r['kind'] != 'critical':
+                    r['kind'] = 'critical'
+                chk.count(1, ('tmplfault', r['kind_full'], r['ch'], r['payload_text']))
+            return recs
+    raise core.MachineryError('template-fault interpreter failed: %s' % (p.stdout + p.stderr)[-800:])
 
 
 def run(chk):
@@ -128,6 +196,17 @@ def run(chk):
             for ch in ('query', 'host'):
                 recs.append(request(apps, kind, ch, pl, False))
                 chk.count(1, (kind, ch, pl[:8], len(pl)))
+    # an application whose before-request hook sets response headers and a default content type: the error document is still
+    # labelled with the media type of what it is
+    request.use_hooked = True
+    for pl in ['<img src=x onerror=alert(1)>', '"', 'plain', '<b>']:
+        for kind in ('404', '405', '500'):
+            for ch in ('query', 'host'):
+                for wj in (True, False):
+                    recs.append(request(apps, kind, ch, pl, wj))
+                    chk.count(1, ('hooked', kind, ch, pl, wj))
+    request.use_hooked = False
+    recs += template_fault_records(chk)
     # JSON error documents with text that must be escaped in JSON but means nothing to HTML (control characters, backslash sequences)
     for pl in ['C:\\docs\\x', '\\d+', '\\', 'a\\', '\\"', '\tq', 'a\nb', '\x01', '\x1f', '\x7f', '\\u0041', '\\n', '"}', '", "x": "']:
         for kind in ('404', '405', '500', '400', '413'):
